@@ -578,7 +578,7 @@ def run_case(case):
             elif kop == "refit":
                 out.steps += 1
                 refits += 1
-                X2, Y2 = c09.tarr(case, case["X2"]), iarr(case["Y2"])
+                X2, Y2 = c09.tarr(case, case["X2"]), c09.lab(case, case["Y2"])
                 try:
                     if kind == "supervised":
                         m.fit(X2, Y2, iarr(list(range(len(X2)))) if case["pre"] else None)
